@@ -8,8 +8,10 @@ O (direct oracle, real classes only)
   * rejection stream: every single-token deletion and every type-name mutation of valid SML, every closing `>` (of every item class,
     alone and nested) replaced by `.`, `<`, a number, a quoted literal, a type word, `[`/`]` — must raise, except `.` for a list's `>` —, every single-character deletion
     and every truncation of valid SML (so: input ending inside an open quoted literal), random strings over the token alphabet and over a
-    character alphabet; every call of the real tokenizer/parser/printer under a 2 s watchdog — exceeding it is violation class
-    `c15-nontermination` with the minimised input (after the first one the deadline drops to 0.4 s and the run stops after a few); a deleted closing bracket or an
+    character alphabet; every call of the real tokenizer/parser/printer under a 2 s watchdog; a deadline hit is only a suspicion and is
+    re-run under a step budget (sys.settrace line count, 200 per input character + 10 000): exceeding THAT is violation class
+    `c15-nontermination` with the minimised input — load-independent (after a confirmed one the deadline drops to 0.4 s, still confirmed
+    by the step budget, and the run stops after a few); a deleted closing bracket or an
     unknown type name must raise
   * the two laws assumed of the float text (`float(repr(x)) == x` bit for bit; no quote/bracket/whitespace in `repr(x)`) sampled;
     `float()` (as `ItemF4/F8._type`) rejects `<`, `>`, `.`, `''`, `>.` and accepts no string containing a bracket (literals + sample)
@@ -72,14 +74,52 @@ class AbortRun(BaseException):
     """too many non-terminating parses: stop exploring, report what was found"""
 
 
-HANGS = {"n": 0}
-FIRST_DEADLINE = 2.0     # the property's bound for one parse
-LATER_DEADLINE = 0.4     # once a parse has exceeded 2 s, later ones are cut earlier (a normal parse takes < 10 ms)
+HANGS = {"n": 0, "false_alarms": 0}
+FIRST_DEADLINE = 2.0     # the property's bound for one parse (a trigger only: the verdict is the step budget below)
+LATER_DEADLINE = 0.4     # after a CONFIRMED non-termination later calls are cut earlier (a normal parse takes < 10 ms)
 HANG_HARD_LIMIT = 14
 
 
-def guarded(fn, seconds=None, count=True):
-    """Run fn() under a wall-clock watchdog (SIGALRM interrupts pure-Python loops).
+def step_budget(size: int) -> int:
+    """executed source lines allowed for a call that handles `size` characters / elements.  The tokenizer spends ~25 lines per character,
+    the readers and the printer less: 200 per unit + 10 000 is an order of magnitude above any terminating run and independent of load."""
+    return 200 * max(size, 1) + 10_000
+
+
+def step_bounded(fn, budget: int):
+    """Run fn() counting executed lines (sys.settrace) instead of seconds.  ('ok', value) | ('err', exc) | ('hang', None) —
+    'hang' iff more than `budget` lines were executed.  Deterministic: machine load cannot change the verdict."""
+    count = 0
+
+    def local(frame, event, arg):
+        nonlocal count
+        if event == "line":
+            count += 1
+            if count > budget:
+                raise Hang()
+        return local
+
+    def tracer(frame, event, arg):
+        return local
+
+    old = sys.gettrace()
+    sys.settrace(tracer)
+    try:
+        return "ok", fn()
+    except Hang:
+        return "hang", None
+    except RecursionError as exc:
+        return "err", exc
+    except Exception as exc:  # noqa: BLE001
+        return "err", exc
+    finally:
+        sys.settrace(old)
+
+
+def guarded(fn, seconds=None, count=True, size=1000):
+    """Run fn() under a wall-clock watchdog (SIGALRM interrupts pure-Python loops).  A deadline hit is only a *suspicion* (the machine may
+    be overloaded): the call is repeated under the step budget, and only exceeding that is reported as non-termination; if the repeat
+    finishes within the budget its result is returned as if nothing had happened.
     Returns ('ok', value) | ('err', exc) | ('hang', None)."""
     if seconds is None:
         seconds = FIRST_DEADLINE if HANGS["n"] == 0 else LATER_DEADLINE
@@ -87,22 +127,27 @@ def guarded(fn, seconds=None, count=True):
     try:
         return "ok", fn()
     except Hang:
-        if count:
-            HANGS["n"] += 1
-            if HANGS["n"] >= HANG_HARD_LIMIT:
-                raise AbortRun() from None
-        return "hang", None
+        pass
     except RecursionError as exc:
         return "err", exc
     except Exception as exc:  # noqa: BLE001
         return "err", exc
     finally:
         signal.setitimer(signal.ITIMER_REAL, 0)
+    st, val = step_bounded(fn, step_budget(size))
+    if st != "hang":
+        HANGS["false_alarms"] += 1
+        return st, val
+    if count:
+        HANGS["n"] += 1
+        if HANGS["n"] >= HANG_HARD_LIMIT:
+            raise AbortRun() from None
+    return "hang", None
 
 
-def hangs(text: str, seconds=0.25) -> bool:
-    """probe used while minimising a non-terminating input (not counted)"""
-    return guarded(lambda: Item.from_sml(text), seconds, count=False)[0] == "hang"
+def hangs(text: str) -> bool:
+    """probe used while minimising a non-terminating input: step budget only (deterministic, not counted)"""
+    return step_bounded(lambda: Item.from_sml(text), step_budget(len(text)))[0] == "hang"
 
 
 def minimise_hang(text: str) -> str:
@@ -197,6 +242,11 @@ def floats_of(tree, out):
     elif tree[0] in FLT_TYPES:
         out.extend(tree[1])
     return out
+
+
+def tree_size(tree) -> int:
+    """number of nodes + elements (what printing is linear in)"""
+    return 1 + (sum(tree_size(t) for t in tree[1]) if tree[0] == "L" else 8 * len(tree[1]))
 
 
 def depth_of(tree) -> int:
@@ -303,7 +353,7 @@ def impl_parse(text: str):
         p = SMLParser(text)
         it = Item.from_sml(p)
         return it, len(p._tokens) - (p._token_counter + 1)
-    st, val = guarded(run)
+    st, val = guarded(run, size=len(text))
     if st == "hang":
         return "hang", None
     if st == "err":
@@ -318,13 +368,13 @@ def impl_parse(text: str):
 
 def roundtrip_fails(tree):
     """None if the real print -> real parse gives the item back, else a short reason"""
-    st, val = guarded(lambda: (lambda it: (it, it.to_sml()))(build(tree)))
+    st, val = guarded(lambda: (lambda it: (it, it.to_sml()))(build(tree)), size=tree_size(tree))
     if st == "hang":
         return "hang"
     if st == "err":
         return "print raised " + type(val).__name__
     it, text = val
-    st, val = guarded(lambda: Item.from_sml(text))
+    st, val = guarded(lambda: Item.from_sml(text), size=len(text))
     if st == "hang":
         return "hang"
     if st == "err":
@@ -354,11 +404,11 @@ def str_item_fails(tag: str, text: str):
         enc = it.encode()
     except Exception:  # noqa: BLE001 - not an encodable item: outside the property
         return None
-    st, val = guarded(lambda: it.to_sml())
+    st, val = guarded(lambda: it.to_sml(), size=len(text) + 10)
     if st != "ok":
         return ("print " + ("did not terminate" if st == "hang" else "raised " + type(val).__name__), None)
     sml = val
-    st, val = guarded(lambda: Item.from_sml(sml))
+    st, val = guarded(lambda: Item.from_sml(sml), size=len(sml))
     if st == "hang":
         return ("hang", sml)
     if st == "err":
@@ -510,7 +560,7 @@ def random_char_text(rng) -> str:
 
 def tokens_of(text: str):
     """tokens of the real tokenizer, None if it does not terminate"""
-    st, val = guarded(lambda: [t.value for t in SMLParser(text)._tokens])
+    st, val = guarded(lambda: [t.value for t in SMLParser(text)._tokens], size=len(text))
     return val if st == "ok" else None
 
 
@@ -554,7 +604,7 @@ def run(a, res):
         res.bump("nontermination", origin)
         if hang_seen["n"] <= 5:
             mini = minimise_hang(text) if hang_seen["n"] == 1 else text
-            res.violate("c15-nontermination", f"Item.from_sml / SMLParser did not terminate within {FIRST_DEADLINE if hang_seen['n'] == 1 else LATER_DEADLINE} s",
+            res.violate("c15-nontermination", f"Item.from_sml / SMLParser did not terminate (deadline {FIRST_DEADLINE if hang_seen['n'] == 1 else LATER_DEADLINE} s exceeded, then more than 200*len+10000 source lines executed)",
                         {"text": mini[:400], "kind": "hang", "origin": origin, "found_in": text[:400]}, "an item or an exception", "no result (watchdog)")
         if hang_seen["n"] >= 6:
             raise AbortRun()
@@ -952,6 +1002,8 @@ def run(a, res):
             res.bump("float_rejects_samples", "accepted" if accepted else "rejected")
     res.evaluations += n_rej
     lap("float laws")
+    res.bump("watchdog", "deadline hits refuted by the step budget (machine load)", HANGS["false_alarms"])
+    res.bump("watchdog", "confirmed non-terminations", HANGS["n"])
 
 
 def parse_sexp(s: str):
